@@ -54,6 +54,9 @@ pub struct RawCycle {
     pub a: u32,
     pub b: u32,
     pub stray: u8,
+    /// 0 = search the previous root again after repeating its position command, 1 = again WITHOUT a position command
+    pub reuse: u8,
+    pub ponder: u8,
 }
 
 #[derive(Debug, Clone)]
@@ -63,7 +66,7 @@ pub struct RawSession {
 }
 
 pub fn cycle_strategy() -> impl Strategy<Value = RawCycle> {
-    (any::<bool>(), prop_oneof![3 => gen::raw_pos(60), 2 => gen::raw_pos_endgames()], gen::raw_playout(24), 0..10u8, 0..12u8, any::<u32>(), any::<u32>(), 0..8u8).prop_map(|(new_game, root, history, root_kind, go_kind, a, b, stray)| RawCycle { new_game, root, history, root_kind, go_kind, a, b, stray })
+    (any::<bool>(), prop_oneof![3 => gen::raw_pos(60), 2 => gen::raw_pos_endgames()], gen::raw_playout(24), 0..10u8, 0..12u8, any::<u32>(), any::<u32>(), (0..8u8, 0..6u8, 0..6u8)).prop_map(|(new_game, root, history, root_kind, go_kind, a, b, (stray, reuse, ponder))| RawCycle { new_game, root, history, root_kind, go_kind, a, b, stray, reuse, ponder })
 }
 
 fn session_strategy() -> impl Strategy<Value = RawSession> {
@@ -203,17 +206,38 @@ pub fn build_go(c: &RawCycle, root: &Pos) -> GoSpec {
             }
         }
     }
+    if c.ponder == 0 {
+        // pondering: `go ponder ...`, then `ponderhit` while the search runs (the engine keeps searching)
+        g.ponder = true;
+        g.ponderhit_after_ms = Some([0u64, 2, 20, 60][(c.b % 4) as usize]);
+        if g.stop_after_ms.is_some() {
+            g.stop_after_ms = Some(220);
+        }
+    }
     g
 }
 
 fn build_session(r: &RawSession) -> SessionCase {
     let mut steps = Vec::new();
+    let mut prev: Option<(String, Vec<String>, Pos)> = None;
     for c in &r.cycles {
-        if c.new_game {
+        if c.new_game && !(c.reuse <= 1 && prev.is_some() && c.stray % 2 == 0) {
             steps.push(Step::NewGame);
         }
-        let (fen, moves, root, _) = build_root(c);
-        steps.push(Step::Position { fen, moves });
+        let (fen, moves, root) = match (&prev, c.reuse) {
+            (Some((f, m, p)), 0) => {
+                steps.push(Step::Position { fen: f.clone(), moves: m.clone() });
+                (f.clone(), m.clone(), p.clone())
+            }
+            // a second go for the position the engine already holds
+            (Some((f, m, p)), 1) => (f.clone(), m.clone(), p.clone()),
+            _ => {
+                let (fen, moves, root, _) = build_root(c);
+                steps.push(Step::Position { fen: fen.clone(), moves: moves.clone() });
+                (fen, moves, root)
+            }
+        };
+        prev = Some((fen, moves, root.clone()));
         match c.stray {
             0 => steps.push(Step::StrayStop),
             1 => steps.push(Step::StrayPonderHit),
@@ -297,6 +321,7 @@ pub fn check_session(case: &SessionCase, ctx: &mut Ctx) -> Result<(), String> {
     let mut hist_len = 0;
     let mut gos = 0;
     let mut trace: Vec<String> = Vec::new();
+    let mut searched: Vec<String> = Vec::new();
     for step in &case.steps {
         match step {
             Step::NewGame => {
@@ -323,6 +348,13 @@ pub fn check_session(case: &SessionCase, ctx: &mut Ctx) -> Result<(), String> {
             Step::Go(g) => {
                 gos += 1;
                 trace.push(g.to_line());
+                if searched.contains(&root.fen4()) {
+                    ctx.class("root_searched_again_on_this_instance");
+                }
+                searched.push(root.fen4());
+                if g.ponder {
+                    ctx.class("go_ponder_then_ponderhit");
+                }
                 match s.search(g) {
                     Wait::Done(out) => judge_answer(&root, hist_len, g, out.best_uci(), ctx).map_err(|e| format!("{e}; session so far: {trace:?}"))?,
                     Wait::ThreadDied(why) => return Err(format!("no bestmove for `{}` at root {}: {why}; session so far: {trace:?}", g.to_line(), root.fen())),
@@ -370,6 +402,10 @@ fn check_session_binary(case: &SessionCase, ctx: &mut Ctx) -> Result<(), String>
             Step::IsReady => b.line("isready")?,
             Step::Go(g) => {
                 b.line(&g.to_line())?;
+                if let Some(ms) = g.ponderhit_after_ms {
+                    std::thread::sleep(std::time::Duration::from_millis(ms));
+                    b.line("ponderhit")?;
+                }
                 if let Some(ms) = g.stop_after_ms {
                     std::thread::sleep(std::time::Duration::from_millis(ms));
                     b.line("stop")?;
